@@ -27,7 +27,7 @@ type caseParams struct {
 func cases(tier string, seed int64) []fw.Case {
 	r := rand.New(rand.NewSource(seed*7919 + 12))
 	var out []fw.Case
-	n, blocks := 16, int64(2300)
+	n, blocks := 42, int64(2300)
 	if tier == "thorough" {
 		n, blocks = 112, 4500
 	}
